@@ -4,6 +4,7 @@ package main
 // pseudo-builtins) and ghost statements.
 
 import (
+	"os"
 	"fmt"
 	"go/ast"
 	"go/constant"
@@ -1645,6 +1646,9 @@ func (c *ExecCtx) runBeforeNamedCallAnchors(st *State, name string, call *ast.Ca
 
 func (c *ExecCtx) runNamedCallAnchors(st *State, name string, call *ast.CallExpr, res []Val) {
 	spec := c.ownSpec()
+	if os.Getenv("GOVC_DEBUG") != "" {
+		fmt.Fprintln(os.Stderr, "dyn-anchor", name, spec != nil, st.dead)
+	}
 	if spec == nil || len(spec.Ghosts) == 0 || st.dead {
 		return
 	}
